@@ -264,8 +264,11 @@ def stage_lib(ctx, inputs, libdir, threads, reps):
         files.append(p)
 
     def one(p):
+        # the shards run under different RUST_BACKTRACE settings; the CLI runs of stage_cli vary it per run: what the
+        # process environment says about backtraces must not reach the output (seed C20-7: `{error:?}` in compile_error!)
+        bt = BACKTRACE_SETTINGS[files.index(p) % len(BACKTRACE_SETTINGS)]
         return vlib.run([vlib.bin_path("lib_runner"), p, libdir, str(threads), str(reps)], timeout=1500,
-                        env={"RUST_BACKTRACE": "0"})
+                        env={"RUST_BACKTRACE": bt if bt is not None else "0"})
     with concurrent.futures.ThreadPoolExecutor(max_workers=nsh) as ex:
         outs = list(ex.map(one, files))
     for rc, out in outs:
@@ -315,7 +318,10 @@ def stage_history(ctx, inputs, lib, libdir, stats):
 STALE = b"// stale content of an earlier run\n" * 40000      # 1.4 MB: longer than any output generated here
 
 
-def cli_once(inp, outpath, cwd):
+BACKTRACE_SETTINGS = ("0", "1", None, "full")      # None: variable absent from the environment
+
+
+def cli_once(inp, outpath, cwd, bt="0"):
     cmd = [CLI, "-m", inp["cli_path"], "-d", "Dev"]
     if outpath:
         try:
@@ -327,7 +333,10 @@ def cli_once(inp, outpath, cwd):
                 f.write(STALE)
         cmd += ["-o", outpath]
     e = dict(os.environ)
-    e["RUST_BACKTRACE"] = "0"
+    e.pop("RUST_BACKTRACE", None)
+    e.pop("RUST_LIB_BACKTRACE", None)
+    if bt is not None:
+        e["RUST_BACKTRACE"] = bt
     try:
         p = subprocess.run(cmd, cwd=cwd, env=e, stdout=subprocess.PIPE, stderr=subprocess.PIPE, timeout=120)
         rc, so, se = p.returncode, p.stdout, p.stderr
@@ -346,22 +355,22 @@ def stage_cli(ctx, inputs, outdir, K, K_many):
     for i in inputs:
         k = K_many if i.get("many") else K
         for r in range(k):
-            tasks.append((i, None))
+            tasks.append((i, None, BACKTRACE_SETTINGS[r % len(BACKTRACE_SETTINGS)]))
         if i["special"].get("uncreatable"):
-            tasks.append((i, os.path.join(outdir, "no_such_dir_" + i["id"], "x.rs")))
+            tasks.append((i, os.path.join(outdir, "no_such_dir_" + i["id"], "x.rs"), "1"))
         else:
-            tasks.append((i, os.path.join(outdir, i["id"] + ".rs")))
-            tasks.append((i, os.path.join(outdir, i["id"] + ".pre.rs")))
+            tasks.append((i, os.path.join(outdir, i["id"] + ".rs"), "1"))
+            tasks.append((i, os.path.join(outdir, i["id"] + ".pre.rs"), None))
     for i in inputs:
         i["runs"] = []
         i["file_run"] = None
         i["pre_run"] = None
 
     def one(t):
-        i, outpath = t
-        return t, cli_once(i, outpath, i["cwd"])
+        i, outpath, bt = t
+        return t, cli_once(i, outpath, i["cwd"], bt)
     with concurrent.futures.ThreadPoolExecutor(max_workers=vlib.NCPU) as ex:
-        for (i, outpath), r in ex.map(one, tasks):
+        for (i, outpath, _bt), r in ex.map(one, tasks):
             if outpath and outpath.endswith(".pre.rs"):
                 intact = r[2] == STALE
                 i["pre_run"] = {"rc": r[0], "file": None if intact else r[2], "intact": intact, "outpath": outpath}
